@@ -174,9 +174,7 @@ func (r WLRecipe) Generate() (*Password, error) {
 		if capWords[i] {
 			w = strings.Title(w)
 		}
-		if len(w) > 0 {
-			ts = append(ts, Token{w, AtomType})
-		}
+		ts = append(ts, Token{w, AtomType})
 		if i < r.Length-1 {
 			sep, _ := sf()
 			if len(sep) > 0 {
